@@ -33,32 +33,51 @@ func dynTypesOfResult0(fn *ssa.Function) []types.Type {
 	var out []types.Type
 	add := func(t types.Type) {
 		for _, o := range out {
-			if types.Identical(o, t) {
+			if (o == nil && t == nil) || (o != nil && t != nil && types.Identical(o, t)) {
 				return
 			}
 		}
 		out = append(out, t)
 	}
-	for _, b := range fn.Blocks {
-		for _, ins := range b.Instrs {
-			ret, ok := ins.(*ssa.Return)
-			if !ok || len(ret.Results) == 0 {
-				continue
-			}
-			v := ret.Results[0]
-			switch x := v.(type) {
-			case *ssa.MakeInterface:
-				add(x.X.Type())
-			case *ssa.Const:
-				if x.Value == nil {
-					add(types.Typ[types.UntypedNil])
+	var visit func(fn *ssa.Function, depth int)
+	visit = func(fn *ssa.Function, depth int) {
+		for _, b := range fn.Blocks {
+			for _, ins := range b.Instrs {
+				ret, ok := ins.(*ssa.Return)
+				if !ok || len(ret.Results) == 0 {
+					continue
 				}
-			default:
-				add(nil)
+				v := ret.Results[0]
+				switch x := v.(type) {
+				case *ssa.MakeInterface:
+					add(x.X.Type())
+				case *ssa.Const:
+					if x.Value == nil {
+						add(types.Typ[types.UntypedNil])
+					}
+				case *ssa.Extract:
+					// the first result of a helper handed on unchanged (e.g. a generic boxing helper)
+					if c, isCall := x.Tuple.(*ssa.Call); isCall && x.Index == 0 && depth < 3 {
+						if callee := c.Call.StaticCallee(); callee != nil && len(callee.Blocks) > 0 && callee.Signature.Results().Len() >= 1 && isEmptyIface(callee.Signature.Results().At(0).Type()) {
+							visit(callee, depth+1)
+							continue
+						}
+					}
+					add(nil)
+				default:
+					add(nil)
+				}
 			}
 		}
 	}
+	visit(fn, 0)
 	return out
+}
+
+// isCoercion: func(string) (interface{}, error) — the literal coercions are the leaves of the coercion table.
+func isCoercion(fn *ssa.Function) bool {
+	sig := fn.Signature
+	return sig.Recv() == nil && sig.Params().Len() == 1 && sig.Results().Len() == 2 && isEmptyIface(sig.Results().At(0).Type()) && isErrorType(sig.Results().At(1).Type()) && types.Identical(sig.Params().At(0).Type().Underlying(), types.Typ[types.String])
 }
 
 func buildKindTables(prog *Program, a *Anchors) *kindTables {
@@ -70,6 +89,7 @@ func buildKindTables(prog *Program, a *Anchors) *kindTables {
 		ps := NewPathSim(prog)
 		kk := k
 		ps.Seed = func(st *pstate) { st.eqc[pk.Key()] = kindConst(kk).Key() }
+		ps.Inline = func(c *ssa.Function) bool { return prog.InModule(c) }
 		sums := ps.Run(a.EqTable)
 		if len(sums) != 1 || len(sums[0].Results) != 1 {
 			kt.problems = append(kt.problems, fmt.Sprintf("equality table: %d paths for kind %s", len(sums), kindNames[k]))
@@ -96,6 +116,7 @@ func buildKindTables(prog *Program, a *Anchors) *kindTables {
 			st.eqc[pk2.Key()] = kindConst(kk).Key()
 			assume(st, &Sym{K: sCmp, Op: token.EQL, A: loadField(pe, "Value"), B: nilSym()}, false)
 		}
+		ps.Inline = func(c *ssa.Function) bool { return prog.InModule(c) && !isCoercion(c) }
 		sums := ps.Run(a.CoerceTab)
 		if len(sums) != 1 || len(sums[0].Results) != 2 {
 			kt.problems = append(kt.problems, fmt.Sprintf("coercion table: %d paths for kind %s", len(sums), kindNames[k]))
@@ -104,8 +125,7 @@ func buildKindTables(prog *Program, a *Anchors) *kindTables {
 		res := sums[0].Results[0]
 		switch {
 		case res.K == sRes && res.A.K == sCall:
-			call := res.A.V.(*ssa.Call)
-			callee := call.Call.StaticCallee()
+			callee, _ := calleeOfSym(res.A)
 			if callee == nil {
 				kt.problems = append(kt.problems, "coercion table: dynamic call for kind "+kindNames[k])
 				continue
@@ -188,6 +208,9 @@ type c09ctx struct {
 	paramSeen map[*ssa.Parameter]int
 	paramK    map[*ssa.Parameter]KindSet
 	postNonNil map[*ssa.Function]int // 0 unknown, 1 yes, 2 no
+	// helpers that can only run as static calls from analysed functions and could not be discharged on their own:
+	// interpreted in place in each caller (their sites are judged with the caller's facts)
+	inlined map[*ssa.Function]bool
 }
 
 func (c *c09ctx) site(ins ssa.Instruction, kind, name string) *siteRes {
@@ -331,11 +354,12 @@ func (c *c09ctx) analyseFunc(fn *ssa.Function) {
 	r.Analysed(fn.String())
 	ps := NewPathSim(prog)
 	ps.Havoc = c.havoc
-	ps.Inline = func(callee *ssa.Function) bool { return isPureReflectHelper(prog, callee) }
-	isCmp := c.cmpSet[fn]
+	ps.Inline = func(callee *ssa.Function) bool { return isPureReflectHelper(prog, callee) || c.inlined[callee] }
+	ps.MaxDepth = 4
 
 	ps.OnInstr = func(f *ssa.Function, st *pstate, ins ssa.Instruction) {
 		symOf := func(v ssa.Value) *Sym { return ps.sym(st, v) }
+		isCmp := c.cmpSet[f]
 		switch x := ins.(type) {
 		case *ssa.Panic:
 			c.record(ins, "explicit-panic", f.Name()+":panic", false, "explicit panic on the evaluation path", st)
@@ -437,6 +461,7 @@ func (c *c09ctx) analyseFunc(fn *ssa.Function) {
 		ins := ev.Instr.(ssa.Instruction)
 		com := ev.Instr.Common()
 		f := ev.In
+		isCmp := c.cmpSet[f]
 		// dynamic calls
 		if ev.Callee == nil && !com.IsInvoke() {
 			if _, isBuiltin := com.Value.(*ssa.Builtin); isBuiltin {
@@ -1146,7 +1171,7 @@ func checkPanicSites(r *Run, prog *Program, a *Anchors, pfx string, roots map[*s
 		}
 	}
 	c := &c09ctx{r: r, prog: prog, a: a, kt: kt, pfx: pfx, sites: map[ssa.Instruction]*siteRes{}, cmpSet: map[*ssa.Function]bool{}, needsValue: map[*ssa.Function][]string{},
-		paramIn: map[*ssa.Parameter]KindSet{}, paramSeen: map[*ssa.Parameter]int{}, paramK: map[*ssa.Parameter]KindSet{}, postNonNil: map[*ssa.Function]int{}}
+		paramIn: map[*ssa.Parameter]KindSet{}, paramSeen: map[*ssa.Parameter]int{}, paramK: map[*ssa.Parameter]KindSet{}, postNonNil: map[*ssa.Function]int{}, inlined: map[*ssa.Function]bool{}}
 	c.ke = &kindEnv{prog: prog}
 	c.ke.litKinds = c.coerceKindsOf
 	c.ke.paramKinds = func(p *ssa.Parameter) (KindSet, bool) {
@@ -1232,8 +1257,34 @@ func checkPanicSites(r *Run, prog *Program, a *Anchors, pfx string, roots map[*s
 		}
 		c.paramK = next
 	}
-	for _, f := range fns {
-		c.analyseFunc(f)
+	for round := 0; ; round++ {
+		for _, f := range fns {
+			if !c.inlined[f] {
+				c.analyseFunc(f)
+			}
+		}
+		if round == 3 {
+			break
+		}
+		// helpers with undischarged sites whose every caller is a static call from an analysed function: judge them in context
+		more := false
+		for ins, s := range c.sites {
+			f := ins.Parent()
+			if len(s.fails) == 0 || c.inlined[f] || c.cmpSet[f] {
+				continue
+			}
+			if prog.contextOnly(f, func(x *ssa.Function) bool { return roots[x] }) {
+				c.inlined[f] = true
+				more = true
+				r.Note("%s: its sites are judged in the context of its callers (interpreted in place)", f.Name())
+			}
+		}
+		if !more {
+			break
+		}
+		c.sites, c.order = map[ssa.Instruction]*siteRes{}, nil
+		c.needsValue = map[*ssa.Function][]string{}
+		c.validatedCmpCalls = 0
 	}
 	if r.Tier == "thorough" {
 		// second pass: after the two explored iterations every loop is entered once more with all loop-carried values
@@ -1241,7 +1292,9 @@ func checkPanicSites(r *Run, prog *Program, a *Anchors, pfx string, roots map[*s
 		// iteration counts
 		c.havoc = true
 		for _, f := range fns {
-			c.analyseFunc(f)
+			if !c.inlined[f] {
+				c.analyseFunc(f)
+			}
 		}
 		c.havoc = false
 	}
